@@ -136,20 +136,23 @@ func (e *Env) runCLI1(j CLIJob, i int) CLIRun {
 		r.Stderr = r.Stderr[:2000] + "..." + r.Stderr[len(r.Stderr)-2000:]
 	}
 	op := on
-	if j.Args != nil && len(j.Args) >= 2 {
-		op = j.Args[len(j.Args)-1]
-		for k := len(j.Args) - 1; k >= 0; k-- {
-			// the second non-flag argument is the output
-			_ = k
-		}
-		nf := []string{}
-		for _, a := range j.Args {
-			if len(a) > 0 && a[0] != '-' {
-				nf = append(nf, a)
+	if j.Args != nil {
+		// positional arguments as Go's flag package sees them: leading -flags (all boolean here) up to the first argument that
+		// is not one, or up to "--"; everything after that is positional, whatever it begins with.  The second is the output.
+		k := 0
+		for k < len(j.Args) {
+			a := j.Args[k]
+			if a == "--" {
+				k++
+				break
 			}
+			if len(a) < 2 || a[0] != '-' {
+				break
+			}
+			k++
 		}
-		if len(nf) >= 2 {
-			op = nf[1]
+		if pos := j.Args[k:]; len(pos) >= 2 {
+			op = pos[1]
 		}
 	}
 	if !filepath.IsAbs(op) {
